@@ -95,6 +95,8 @@ fn one_backend(req: &Value, be: &str) -> Value {
             .and_then(|v| v.as_array())
             .map(|a| a.iter().map(rt::denum).collect())
             .unwrap_or_default();
+        // never hand the runtime more input words than dsp declares
+        let inp: Vec<f64> = inp.into_iter().take(io.map_or(0, |i| i.0 as usize)).collect();
         let res = catch_unwind(AssertUnwindSafe(|| r.tick(&inp)));
         match res {
             Ok((rc, o)) => {
